@@ -16,6 +16,7 @@ package sorted_set
 
 import (
 	"errors"
+	"fmt"
 	"math"
 	"slices"
 	"strconv"
@@ -35,6 +36,29 @@ func parseScore(s string) (Score, error) {
 		return 0, errors.New("score must be a double")
 	}
 	return Score(f), nil
+}
+
+// validateRangeOptions checks that the options of ZRANGE / ZRANGESTORE are limited to
+// [BYSCORE | BYLEX] [REV] [LIMIT offset count] [WITHSCORES]. The LIMIT arguments are parsed by the caller.
+func validateRangeOptions(options []string) error {
+	byscore, bylex := false, false
+	for i := 0; i < len(options); i++ {
+		switch strings.ToLower(options[i]) {
+		case "byscore":
+			byscore = true
+		case "bylex":
+			bylex = true
+		case "rev", "withscores":
+		case "limit":
+			i += 2
+		default:
+			return fmt.Errorf("invalid option %s", options[i])
+		}
+	}
+	if byscore && bylex {
+		return errors.New("BYSCORE and BYLEX options are mutually exclusive")
+	}
+	return nil
 }
 
 func extractKeysWeightsAggregateWithScores(cmd []string) ([]string, []int, string, bool, error) {
